@@ -2,17 +2,26 @@
 against the real dbus-daemon and canonicaliser.  Trusted glue.
 
 A scenario is a dict
-  {"elems": [[ctx, [[allow(bool), [[attr, value], ...]], ...]], ...],
-   "ops":   [["C", uid, [gids]] | ["M", conn, {type, no_reply, serial, reply_serial, nfds, path, iface, member, error, dest, arg}], ...]}
+  {"files": TREE, "ops": [OP, ...]}           (older corpus entries: "elems": [[ctx, rules], ...] = a tree without includes)
+  TREE  = [ITEM, ...]
+  ITEM  = ["P", ctx, [[allow(bool), [[attr, value], ...]], ...]]          a <policy> element
+        | ["I", ignore_missing(bool), TARGET, "abs"|"rel"]                 <include>
+        | ["D", [[file name, TARGET], ...]]                                <includedir> (entries in creation order)
+  TARGET = ["missing"] | ["broken"] | ["circular"] | ["file", TREE]
+  OP    = ["C", uid, [gids]]                                               connect + Hello (may be refused by user=/group= rules)
+        | ["M", conn, {type, no_reply, serial, reply_serial, nfds, path, iface, member, error, dest, arg}]
+        | ["W", TREE]                                                      rewrite the configuration files (no reload yet)
+        | ["H"]                                                            SIGHUP to the daemon (asynchronous reload; only used where
+                                                                           the files on disk do not load, so that nothing may change)
 ctx: "d" default, "m" mandatory, "u<uid>", "g<gid>", "ct"/"cf" at_console true/false, "i" (unknown user: ignored).
-The same scenario is rendered as a configuration file for the daemon and as a
+The same scenario is rendered as configuration files for the daemon and as a
 `scn` line for the extracted model (ml/policy/driver.ml).
 
-Every configuration ends with a fixed mandatory block (CONTROL) that lets each
-client call GetId on the bus driver and receive method returns from the bus
-driver: that is what the ordering barrier needs.  The model sees these rules
-like any others."""
-import array, os, socket, sys, time
+Every top-level configuration file ends with a fixed mandatory block (CONTROL)
+that lets each client call GetId and ReloadConfig on the bus driver and
+receive method returns from the bus driver: that is what the ordering barrier
+needs.  The model sees these rules like any others."""
+import array, os, shutil, socket, sys, tempfile, time
 sys.path.insert(0, os.path.dirname(os.path.abspath(__file__)))
 import rawbus
 from rawbus import RawConn, Msg, Daemon, METHOD_CALL, METHOD_RETURN, ERROR, SIGNAL, F_PATH, F_INTERFACE, F_MEMBER, F_ERROR_NAME, \
@@ -26,8 +35,13 @@ DPATH = "/org/freedesktop/DBus"
 MATCH_SIG = "type='signal'"
 MATCH_EAV = "eavesdrop='true'"
 
-CONTROL = ["m", [[True, [["send_destination", DRIVER], ["send_interface", DRIVER], ["send_member", "GetId"]]],
-                 [True, [["receive_sender", DRIVER], ["receive_type", "method_return"]]]]]
+CONTROL = ["P", "m", [[True, [["send_destination", DRIVER], ["send_interface", DRIVER], ["send_member", "GetId"]]],
+                      [True, [["send_destination", DRIVER], ["send_interface", DRIVER], ["send_member", "ReloadConfig"]]],
+                      [True, [["receive_sender", DRIVER], ["receive_type", "method_return"]]]]]
+DB_GROUPS = {0: [0], 1: [1], 2: [2], 3: [3]}      # what the user database says (primary groups only in this sandbox)
+DOCTYPE = """<!DOCTYPE busconfig PUBLIC "-//freedesktop//DTD D-Bus Bus Configuration 1.0//EN"
+ "http://www.freedesktop.org/standards/dbus/1.0/busconfig.dtd">
+"""
 
 CONF = """<!DOCTYPE busconfig PUBLIC "-//freedesktop//DTD D-Bus Bus Configuration 1.0//EN"
  "http://www.freedesktop.org/standards/dbus/1.0/busconfig.dtd">
@@ -61,32 +75,173 @@ def ctx_xml(ctx):
     raise ValueError(ctx)
 
 
-def all_elems(scn):
-    return list(scn["elems"]) + [CONTROL]
+def top_tree(scn, tree=None):
+    """the items of the top-level file (with the control block)"""
+    if tree is None:
+        tree = scn["files"] if "files" in scn else [["P", ctx, rules] for ctx, rules in scn["elems"]]
+    return list(tree) + [CONTROL]
 
 
-def to_xml(scn):
-    out = []
-    for ctx, rules in all_elems(scn):
-        out.append("  <policy %s>" % ctx_xml(ctx))
-        for allow, attrs in rules:
-            out.append("    <%s %s/>" % ("allow" if allow else "deny", " ".join('%s="%s"' % (k, v) for k, v in attrs)))
-        out.append("  </policy>")
+def policy_xml(ctx, rules, indent="  "):
+    out = [indent + "<policy %s>" % ctx_xml(ctx)]
+    for allow, attrs in rules:
+        out.append(indent + "  <%s %s/>" % ("allow" if allow else "deny", " ".join('%s="%s"' % (k, v) for k, v in attrs)))
+    out.append(indent + "</policy>")
     return "\n".join(out)
 
 
+_DIR_ORDER = {}
+
+
+def dir_order(names):
+    """the order in which a directory listing returns files created in this order (probed once per name tuple in a scratch
+    directory next to where the daemon's directories are made: the configuration parser includes in readdir order)"""
+    key = tuple(names)
+    if key not in _DIR_ORDER:
+        d = tempfile.mkdtemp(prefix="verif_dirorder_")
+        try:
+            for n in names:
+                open(os.path.join(d, n), "w").close()
+            _DIR_ORDER[key] = os.listdir(d)
+        finally:
+            shutil.rmtree(d, ignore_errors=True)
+    return _DIR_ORDER[key]
+
+
+class TreeWriter:
+    """writes a TREE as bus.conf plus include files / directories under `root`"""
+
+    def __init__(self, root, sock):
+        self.root, self.sock, self.k, self.gen, self.created = root, sock, 0, 0, []
+
+    def fresh(self, stem, ext):
+        self.k += 1
+        return os.path.join(self.root, "g%d_%s%d%s" % (self.gen, stem, self.k, ext))
+
+    def write_top(self, tree):
+        """(re)write the whole tree.  Include files and directories get fresh names every time and nothing old is removed:
+        the daemon watches the <includedir> directories of the configuration it has loaded (inotify -> SIGHUP to itself
+        -> reload), so touching them would start a reload of its own at an unknown moment.  bus.conf is replaced atomically."""
+        self.gen += 1
+        body = self.items_xml(tree, self.root, os.path.join(self.root, "bus.conf"))
+        tmp = os.path.join(self.root, "bus.conf.new")
+        with open(tmp, "w") as f:
+            f.write(CONF % {"sock": self.sock, "policy": body})
+        os.replace(tmp, os.path.join(self.root, "bus.conf"))
+
+    def write_target(self, target, path):
+        """create the file `path` for an include target (nothing for "missing")"""
+        if target[0] == "missing":
+            return
+        self.created.append(path)
+        with open(path, "w") as f:
+            if target[0] == "broken":
+                f.write(DOCTYPE + "<busconfig><policy")
+            elif target[0] == "circular":
+                f.write(DOCTYPE + "<busconfig>\n  <include>%s</include>\n</busconfig>\n" % path)
+            else:
+                f.write(DOCTYPE + "<busconfig>\n%s\n</busconfig>\n" % self.items_xml(target[1], os.path.dirname(path), path))
+
+    def items_xml(self, items, here, self_path):
+        out = []
+        for it in items:
+            if it[0] == "P":
+                out.append(policy_xml(it[1], it[2]))
+            elif it[0] == "I":
+                im, target = it[1], it[2]
+                if target[0] == "circular":
+                    path = self_path            # a file that is already being included: this very file
+                else:
+                    path = self.fresh("inc", ".conf")
+                    self.write_target(target, path)
+                shown = os.path.relpath(path, here) if (len(it) > 3 and it[3] == "rel") else path
+                out.append('  <include%s>%s</include>' % (' ignore_missing="yes"' if im else "", shown))
+            elif it[0] == "D":
+                dpath = self.fresh("dir", ".d")
+                os.mkdir(dpath)
+                os.chmod(dpath, 0o755)
+                self.created.append(dpath)
+                names = [n for n, t in it[1] if t[0] != "missing"]
+                for n, t in it[1]:
+                    if t[0] == "circular":
+                        with open(os.path.join(dpath, n), "w") as f:
+                            f.write(DOCTYPE + "<busconfig>\n  <include>%s</include>\n</busconfig>\n" % os.path.join(dpath, n))
+                    elif t[0] != "missing":
+                        self.write_target(t, os.path.join(dpath, n))
+                if os.listdir(dpath) != dir_order(names):
+                    raise IOError("directory listing order differs from the probed one: %r vs %r" % (os.listdir(dpath), dir_order(names)))
+                out.append("  <includedir>%s</includedir>" % dpath)
+            else:
+                raise ValueError(it)
+        return "\n".join(out)
+
+
+def to_xml(scn, tree=None):
+    """readable rendering of a tree (includes shown inline as comments); for replays and samples"""
+    def go(items, ind):
+        out = []
+        for it in items:
+            if it[0] == "P":
+                out.append(policy_xml(it[1], it[2], ind))
+            elif it[0] == "I":
+                out.append('%s<!-- include ignore_missing=%s: %s -->' % (ind, "yes" if it[1] else "no", it[2][0]))
+                if it[2][0] == "file":
+                    out += go(it[2][1], ind + "    ")
+                    out.append(ind + "<!-- end include -->")
+            else:
+                out.append("%s<!-- includedir, listing order %s -->" % (ind, dir_order([n for n, t in it[1] if t[0] != "missing"])))
+                for n, t in it[1]:
+                    out.append("%s  <!-- file %s: %s -->" % (ind, n, t[0]))
+                    if t[0] == "file":
+                        out += go(t[1], ind + "      ")
+                out.append(ind + "<!-- end includedir -->")
+        return out
+    return "\n".join(go(top_tree(scn, tree), "  "))
+
+
+def tree_items(items):
+    out = []
+    for it in items:
+        if it[0] == "P":
+            out.append("P " + it[1])
+            for allow, attrs in it[2]:
+                out.append("R %s %s" % ("a" if allow else "d", " ".join("%s=%s" % (k, v if k in ("max_fds", "min_fds") else hexs(v)) for k, v in attrs)))
+        elif it[0] == "I":
+            if it[2][0] == "file":
+                out.append("I %d {" % (1 if it[1] else 0))
+                out += tree_items(it[2][1]) + ["}"]
+            else:
+                out.append("I %d %s" % (1 if it[1] else 0, it[2][0]))
+        else:
+            out.append("D")
+            ents = dict((n, t) for n, t in it[1])
+            order = dir_order([n for n, t in it[1] if t[0] != "missing"])
+            for n in order:
+                t = ents[n]
+                conf = 1 if n.endswith(".conf") else 0
+                if t[0] == "file":
+                    out.append("F %d {" % conf)
+                    out += tree_items(t[1]) + ["}"]
+                else:
+                    out.append("F %d %s" % (conf, t[0]))
+            out.append("E")
+    return out
+
+
 def to_line(scn):
-    items = []
-    for ctx, rules in all_elems(scn):
-        items.append("P " + ctx)
-        for allow, attrs in rules:
-            items.append("R %s %s" % ("a" if allow else "d", " ".join("%s=%s" % (k, v if k in ("max_fds", "min_fds") else hexs(v)) for k, v in attrs)))
-    nconn = 0
+    items = ["N u %s %d" % (hexs(n), u) for u, n in USERS.items()] + ["N g %s %d" % (hexs(n), g) for g, n in GROUPS.items()]
+    items += ["T"] + tree_items(top_tree(scn)) + ["X"]
+    cur = None
     for op in scn["ops"]:
         if op[0] == "C":
             gids = sorted(set(op[2]))
-            items.append("C %d %s 0 %s 1" % (op[1], ",".join(map(str, gids)) or "-", hexs(":1.%d" % nconn)))
-            nconn += 1
+            dbg = DB_GROUPS.get(op[1])
+            items.append("C %d %s 0 %s 1" % (op[1], ",".join(map(str, gids)) or "-", "~" if dbg is None else ",".join(map(str, dbg))))
+        elif op[0] == "W":
+            items += ["W"] + tree_items(top_tree(scn, op[1])) + ["X"]
+            cur = op[1]
+        elif op[0] == "H":
+            items += ["W"] + tree_items(top_tree(scn, cur)) + ["X"]        # for the model: nothing happens
         else:
             m = op[2]
             items.append("M %d %d %d %d %d %d %s %s %s %s %s %s" % (
@@ -171,8 +326,12 @@ def start_daemon(exe, scn):
     d.sock = os.path.join(d.dir, "bus")
     d.conf = os.path.join(d.dir, "bus.conf")
     d.address = "unix:path=" + d.sock
-    with open(d.conf, "w") as f:
-        f.write(CONF % {"sock": d.sock, "policy": to_xml(scn)})
+    d.writer = TreeWriter(d.dir, d.sock)
+    try:
+        d.writer.write_top(top_tree(scn))
+    except Exception:
+        shutil.rmtree(d.dir, ignore_errors=True)
+        raise
     e = dict(os.environ)
     e["ASAN_OPTIONS"] = "detect_leaks=0:abort_on_error=0:exitcode=99:log_path=" + os.path.join(d.dir, "asan")
     e["UBSAN_OPTIONS"] = "print_stacktrace=1:halt_on_error=1:log_path=" + os.path.join(d.dir, "ubsan")
@@ -247,26 +406,59 @@ def run_daemon(exe, scn):
     d, err = start_daemon(exe, scn)
     if d is None:
         return "CFGERR", err[-400:]
-    conns, names, results = [], [], []
+    conns, names, dead, results = [], [], set(), []
+    next_id = 0
     devnull = os.open("/dev/null", os.O_RDONLY)
     try:
         for op in scn["ops"]:
+            if op[0] == "W":
+                d.writer.write_top(top_tree(scn, op[1]))
+                results.append(".")
+                continue
+            if op[0] == "H":
+                import signal
+                os.kill(d.proc.pid, signal.SIGHUP)
+                live = [i for i in range(len(conns)) if i not in dead]
+                gone = False
+                for _ in range(3):                      # round trips: the reload pipe has been served after these
+                    for i in live[:1]:
+                        bs = conns[i].next_serial()
+                        try:
+                            conns[i].send(Msg(METHOD_CALL, 0, bs, {F_PATH: DPATH, F_INTERFACE: DRIVER, F_MEMBER: "GetId", F_DESTINATION: DRIVER}))
+                            if conns[i].wait_reply(bs, timeout=10.0) is None:
+                                gone = True
+                        except (OSError, IOError):
+                            gone = True
+                results.append(".")
+                if gone:
+                    try:
+                        d.proc.wait(timeout=10)         # let the dying daemon finish writing its report
+                    except Exception:
+                        pass
+                    break
+                continue
             if op[0] == "C":
                 gids = sorted(set(op[2]))
                 c = UidConn(d.sock, op[1], gids)
                 conns.append(c)
-                names.append(":1.%d" % (len(conns) - 1))
+                names.append(":1.%d" % next_id)
                 serial = c.next_serial()
-                c.send(Msg(METHOD_CALL, 0, serial, {F_PATH: DPATH, F_INTERFACE: DRIVER, F_MEMBER: "Hello", F_DESTINATION: DRIVER}))
+                try:
+                    c.send(Msg(METHOD_CALL, 0, serial, {F_PATH: DPATH, F_INTERFACE: DRIVER, F_MEMBER: "Hello", F_DESTINATION: DRIVER}))
+                except (OSError, IOError):
+                    pass
                 probe = ("C", len(conns) - 1, serial, None)
             else:
                 s, pm = op[1], op[2]
+                if s in dead:
+                    results.append(".")
+                    continue
                 c = conns[s]
                 msg = build_msg(c, pm)
                 c.send(msg, fds=[devnull] * pm.get("nfds", 0))
                 probe = ("M", s, pm["serial"], pm)
             # ordering barrier: first the acting connection, then everybody
-            order = [probe[1]] + [i for i in range(len(conns)) if i != probe[1]]
+            order = [probe[1]] + [i for i in range(len(conns)) if i != probe[1] and i not in dead]
             lost = []
             for i in order:
                 c = conns[i]
@@ -276,9 +468,20 @@ def run_daemon(exe, scn):
                     r = c.wait_reply(bs, timeout=10.0)
                 except (OSError, IOError):
                     r = None
+                    c.closed = True
                 if r is None:
                     lost.append(i)
             out = []
+            if op[0] == "C":
+                i = len(conns) - 1
+                if i in lost and conns[i].closed and not conns[i].inbox:
+                    # the bus closed the connection right after authentication: refused by the user=/group= rules
+                    lost.remove(i)
+                    dead.add(i)
+                    names[i] = None
+                    out.append("%d:REFUSED" % i)
+                else:
+                    next_id += 1
             for i, c in enumerate(conns):
                 msgs, c.inbox = c.inbox, []
                 for m in msgs:
@@ -391,12 +594,29 @@ def gen_rule(rnd, nconn, invalid_rate=0.02):
     return [allow, attrs]
 
 
-def gen_scenario(rnd, quick=True):
-    nconn = rnd.choice((3, 3, 4))
-    idents = [rnd.choice(IDENTS) for _ in range(nconn)]
-    uids = sorted(set(u for u, _ in idents))
-    gids = sorted(set(g for _, gs in idents for g in gs))
-    first = [[True, [["user", "*"]]]]
+CONN_NAMES_U = ["root", "daemon", "bin", "sys", "*", "nosuchuser_c06"]
+CONN_NAMES_G = ["root", "daemon", "bin", "sys", "adm", "*", "nosuchgroup_c06"]
+
+
+def gen_conn_rule(rnd):
+    if rnd.random() < 0.6:
+        return [rnd.random() < 0.5, [["user", rnd.choice(CONN_NAMES_U)]]]
+    return [rnd.random() < 0.5, [["group", rnd.choice(CONN_NAMES_G)]]]
+
+
+def gen_policy_elems(rnd, nconn, uids, gids, queued):
+    """the <policy> elements of one configuration, as a flat list [[ctx, rules], ...]"""
+    r = rnd.random()
+    if r < 0.6:
+        first = [[True, [["user", "*"]]]]
+    elif r < 0.7:
+        first = []                                   # only the owner of the bus gets in
+    elif r < 0.8:
+        first = [[True, [["user", "*"]]], [False, [[rnd.choice(("user", "group")), rnd.choice(("daemon", "bin", "sys", "root"))]]]]
+    elif r < 0.9:
+        first = [[True, [["group", rnd.choice(("daemon", "bin", "sys"))]]], [True, [["user", rnd.choice(("daemon", "bin", "sys"))]]]]
+    else:
+        first = [gen_conn_rule(rnd) for _ in range(rnd.randint(1, 3))]
     if rnd.random() < 0.75:
         first.append([True, rnd.choice(([["send_destination", "*"]], [["send_destination", "*"], ["eavesdrop", "true"]],
                                          [["send_type", "method_call"]], [["send_destination", "*"], ["send_requested_reply", "false"]]))])
@@ -408,12 +628,6 @@ def gen_scenario(rnd, quick=True):
     if rnd.random() < 0.75:
         first.append([True, rnd.choice(([["own", "*"]], [["own_prefix", "com.ex"]], [["own_prefix", "com.ex.A"]]))])
     inv = 0.02 if rnd.random() < 0.15 else 0.0
-    # which names will be requested by whom (queues: the first requester is the primary owner if its policy lets it)
-    plan = []
-    for i in range(nconn):
-        for _ in range(rnd.choice((0, 1, 1, 2))):
-            plan.append((i, rnd.choice(NAMES[:2] + NAMES)))
-    queued = [(n, i) for k, (i, n) in enumerate(plan) if any(n2 == n and i2 != i for (i2, n2) in plan[:k])]
     elems = [["d", first + [gen_rule(rnd, nconn, inv) for _ in range(rnd.randint(0, 3))]]]
     for _ in range(rnd.randint(1, 5)):
         ctx = rnd.choice(["d", "m", "m", "u%d" % rnd.choice(uids), "u%d" % rnd.choice(list(USERS)), "g%d" % rnd.choice(gids),
@@ -425,7 +639,73 @@ def gen_scenario(rnd, quick=True):
             allow = rnd.random() < 0.5
             rules.insert(rnd.randint(0, len(rules)), [allow, rnd.choice(([["send_destination", n]], [["receive_sender", n]],
                                                                          [["send_destination_prefix", n.rsplit(".", 1)[0]]]))])
+        # user= / group= rules: meaningful in default and mandatory contexts, dropped in console / ignored ones, an error in
+        # per-user and per-group ones (rarely generated there)
+        if rnd.random() < (0.25 if ctx in ("d", "m", "cf", "ct", "i") else 0.02):
+            rules.insert(rnd.randint(0, len(rules)), gen_conn_rule(rnd))
         elems.append([ctx, rules])
+    return elems
+
+
+DIR_NAMES = ["a.conf", "b.conf", "c.conf", "k.conf", "zz.txt", "x.conf.bak", "conf", "m.CONF"]
+
+
+def wrap_tree(rnd, elems, fatal_rate=0.03, depth=0):
+    """spread <policy> elements over a tree of included files and directories"""
+    items = [["P", c, r] for c, r in elems]
+    if depth == 0 and rnd.random() < 0.4:
+        return items
+    out, i = [], 0
+    while i < len(items):
+        n = rnd.randint(1, 3)
+        chunk, i = items[i:i + n], i + n
+        r = rnd.random()
+        if r < 0.35 or depth >= 2:
+            out += chunk
+        elif r < 0.7:
+            sub = wrap_tree(rnd, [[c[1], c[2]] for c in chunk], fatal_rate, depth + 1)
+            out.append(["I", rnd.random() < 0.3, ["file", sub], rnd.choice(("abs", "abs", "rel"))])
+        else:
+            names = rnd.sample(DIR_NAMES, rnd.randint(1, 4))
+            ents = []
+            for k, nm in enumerate(names):
+                t = rnd.random()
+                if k == 0 or t < 0.4:
+                    sub = wrap_tree(rnd, [[c[1], c[2]] for c in (chunk if k == 0 else [rnd.choice(chunk)])], 0.15, depth + 1)
+                    ents.append([nm, ["file", sub]])
+                elif t < 0.6:
+                    ents.append([nm, ["broken"]])
+                elif t < 0.75:
+                    ents.append([nm, ["circular"]])
+                else:
+                    ents.append([nm, ["file", [["P", "d", [[False, [["own", rnd.choice(NAMES)]]]]], ["I", False, ["missing"], "abs"]]]])
+            rnd.shuffle(ents)
+            out.append(["D", ents])
+        r = rnd.random()
+        if r < 0.12:
+            out.append(["I", True, ["missing"], rnd.choice(("abs", "rel"))])
+        elif r < 0.2:
+            # D4: an existing file, included with ignore_missing="yes", that itself includes an absent file
+            out.append(["I", True, ["file", [["P", rnd.choice(("d", "m")), [[False, [["own", rnd.choice(NAMES)]]], [False, [["send_destination", rnd.choice(NAMES)]]]]],
+                                             ["I", False, ["missing"], "abs"]]], "abs"])
+        elif r < 0.2 + fatal_rate:
+            out.append(["I", rnd.random() < 0.5, [rnd.choice(("missing", "broken", "circular"))], "abs"])
+    return out
+
+
+def gen_scenario(rnd, quick=True):
+    nconn = rnd.choice((3, 3, 4))
+    idents = [rnd.choice(IDENTS) for _ in range(nconn)]
+    uids = sorted(set(u for u, _ in idents))
+    gids = sorted(set(g for _, gs in idents for g in gs))
+    # which names will be requested by whom (queues: the first requester is the primary owner if its policy lets it)
+    plan = []
+    for i in range(nconn):
+        for _ in range(rnd.choice((0, 1, 1, 2))):
+            plan.append((i, rnd.choice(NAMES[:2] + NAMES)))
+    queued = [(n, i) for k, (i, n) in enumerate(plan) if any(n2 == n and i2 != i for (i2, n2) in plan[:k])]
+    files = wrap_tree(rnd, gen_policy_elems(rnd, nconn, uids, gids, queued))
+    reload_at = rnd.randint(2, 9) if rnd.random() < 0.55 else -1
     ops = [["C", u, g] for u, g in idents]
     serial = [1000] * nconn
     calls = []   # (caller, callee, serial) of method calls to peers: candidates for requested replies
@@ -445,7 +725,16 @@ def gen_scenario(rnd, quick=True):
             if j == i:
                 ops.append(drv(i, "RequestName", n, rnd.random() < 0.8))
                 owners.setdefault(n, []).append(i)
-    for _ in range(rnd.randint(8, 14) if quick else rnd.randint(12, 24)):
+    for step in range(rnd.randint(8, 14) if quick else rnd.randint(12, 24)):
+        if step == reload_at or (reload_at >= 0 and step == reload_at + 4 and rnd.random() < 0.4):
+            # the administrator edits the files and somebody asks for a reload; sometimes a new client arrives afterwards
+            ops.append(["W", wrap_tree(rnd, gen_policy_elems(rnd, nconn, uids, gids, queued), fatal_rate=0.12)])
+            ops.append(drv(rnd.randrange(nconn), "ReloadConfig", None, rnd.random() < 0.8))
+            if rnd.random() < 0.4:
+                u, g = rnd.choice(IDENTS)
+                ops.append(["C", u, g])
+                serial.append(1000)
+                nconn += 1
         s = rnd.randrange(nconn)
         r = rnd.random()
         if r < 0.08:
@@ -510,4 +799,4 @@ def gen_scenario(rnd, quick=True):
             if tgt is not None:
                 calls.append((s, tgt, m["serial"]))
         ops.append(["M", s, m])
-    return {"elems": elems, "ops": ops}
+    return {"files": files, "ops": ops}
